@@ -543,7 +543,14 @@ class NRun(object):
         self.by = self.build_bystander() if desc.bystander else None
         methods = self.model_methods()
         self.model = None if desc.self_model else type('Model', (_Model,), methods)()
+        # further models of the same class on the same machine that never receive an event (some registered at
+        # construction, some through add_model afterwards): registering a model must not change what happens for
+        # another one (per-state callback lists are shared by all models — C10's independence seen from C18)
+        n_idle = 0 if desc.self_model else (len(desc.nodes) + len(desc.trans)) % 3
+        self.idle = [type(self.model)() for _ in range(n_idle)]
         self.machine = self.build(methods)
+        for extra in self.idle[1:]:
+            self.machine.add_model(extra)
         if desc.self_model:
             self.model = self.machine
         for i in range(len(desc.nodes)):
@@ -709,7 +716,7 @@ class NRun(object):
             cls = type('SelfModel', (cls,), dict(methods or {}))
         states = [self.node_def(i) for i in d.roots]
         transitions = [self.trans_def(ti, t, False) for ti, t in enumerate(d.trans) if t['scope'] is None]
-        return cls(model=(cls.self_literal if d.self_model else self.model), states=states, transitions=transitions, initial=d.full_name(d.initial),
+        return cls(model=(cls.self_literal if d.self_model else ([self.model] + self.idle[:1] if self.idle else self.model)), states=states, transitions=transitions, initial=d.full_name(d.initial),
                    auto_transitions=True, ignore_invalid_triggers=True,
                    before_state_change=[self.rec(lambda: ('bsc',))],
                    after_state_change=[self.rec(lambda: ('asc', self.snap()))],
